@@ -246,7 +246,6 @@ func expandPhis(c RetCase, depth int) []RetCase {
 	return out
 }
 
-
 // resolveLoads replaces values that are loads of a local variable by what was
 // stored there (`err = f(); return err` with a spilled result reads the local
 // back before storing it again); several reaching stores split the case.
